@@ -241,4 +241,22 @@ theorem advance_subset (st : LState) : ∀ a ∈ (advance st).2.pending, a ∈ s
       | skip)
 
 
+theorem advance_false_le (st : LState) :
+    (advance st).1 = false → (advance st).2.pending.length ≤ st.pending.length := by
+  fun_induction advance st
+  all_goals (try (intro h; simp at h; done))
+  all_goals (try (intro _; simp; done))
+  all_goals (
+    have h3 := skipSpace_cons_lt (by assumption)
+    try simp at h3
+    first
+      | (intro _; simp; omega)
+      | (intro h; have ih := ‹_ → _› h; have := skipComment_length ‹List Rune›; simp at ih; omega)
+      | skip)
+
+theorem advance_le (st : LState) : (advance st).2.pending.length ≤ st.pending.length := by
+  cases h : (advance st).1
+  · exact advance_false_le st h
+  · exact Nat.le_of_lt (advance_lt st h)
+
 end RubyTi.Lexer
